@@ -187,6 +187,10 @@ def nestings(d):
     out.append(("fnptr-param-nesting", ".h", "void g(" + prm + ");\n"))
     s = "typedef int t0;\n" + "".join("typedef t%d t%d;\n" % (i, i + 1) for i in range(d)) + "t%d last;\n" % d
     out.append(("typedef-chain", ".h", s))
+    # the end of the chain in every position a type can be used: constant, member, array, pointer, signature, bit-field
+    s += ("const t%d kconst = 5;\nstatic const t%d kstatic = 7;\nstruct UsesT { t%d m; t%d arr[2]; t%d *p; t%d bf : 3; };\n"
+          "t%d fn_t(t%d a, const t%d *b);\nenum { ESZ = sizeof(t%d) };\n" % ((d,) * 10))
+    out.append(("typedef-chain-uses", ".h", s))
     s = "struct L0 { int x; };\n" + "".join("struct L%d { struct L%d inner; };\n" % (i + 1, i) for i in range(d))
     out.append(("struct-by-value-chain", ".h", s))
     s = "".join("struct Q%d { struct Q%d *next; };\n" % (i, (i + 1) % d) for i in range(d))
